@@ -40,6 +40,7 @@ var probeProps = []string{
 	"border-top-style", "border-right-style", "border-bottom-style", "border-left-style",
 	"border-top-color", "border-right-color", "border-bottom-color", "border-left-color",
 	"visibility", "color",
+	"column-width", "column-count",
 }
 
 // ---- worker side
@@ -50,6 +51,7 @@ type wIn struct {
 	Block  string
 	Value  string   // resolve: the value whose top-level tokens are resolved
 	Props  []string // meta: properties to read
+	Alt    string   // meta (computed mode): optional third block, see emitT
 }
 
 type wOut struct {
@@ -189,6 +191,7 @@ var families = []struct {
 	{"border", probeProps[8:16], "border-style: dotted dashed double groove; border-color: #f00 #0f0 #00f #ff0; "},
 	{"visibility", probeProps[16:17], "visibility: hidden; "},
 	{"color", probeProps[17:18], "color: #f0f; "},
+	{"column", probeProps[18:20], "columns: 17px 5; "},
 }
 
 func probeFor(r *vlib.Rng, block string) (props []string, parent string) {
@@ -299,11 +302,14 @@ func blockTags(block string) []string {
 	if hasTag(lb, "inherit", "initial") {
 		t = append(t, "default-keyword")
 	}
-	if hasTag(lb, "border:", "border-top:", "border-left:", "border-right:", "border-bottom:") {
+	if hasTag(lb, "border:", "border-top:", "border-left:", "border-right:", "border-bottom:", "outline:", "column-rule:") {
 		t = append(t, "border-shorthand")
 	}
 	if hasTag(lb, "margin:", "padding:", "bleed:", "border-width:", "border-style:", "border-color:") {
 		t = append(t, "four-sides")
+	}
+	if hasTag(lb, "columns:", "columns ", "columns/") {
+		t = append(t, "columns-shorthand")
 	}
 	return t
 }
@@ -323,6 +329,7 @@ func main() {
 	var cases []vlib.Case // direct cases, in order
 	var pend []pending
 	var corpusMeta [][4]string // mode, canonical, variant, props
+	unsupported := map[string]bool{} // value-table entries known to be rejected (valid CSS, not supported)
 
 	addComputed := func(r *vlib.Rng, parentCustom, block string, tags []string) {
 		probeProps, sentinel := probeFor(r, block)
@@ -429,6 +436,8 @@ func main() {
 					addComputed(rng.Fork(), fs[1], fs[2], append(blockTags(fs[2]), "corpus"))
 				case fs[0] == "resolve" && len(fs) >= 3:
 					addResolve(fs[1], fs[2], []string{"corpus"})
+				case fs[0] == "unsupported" && len(fs) >= 2:
+					unsupported[fs[1]] = true
 				case fs[0] == "meta" && len(fs) >= 4:
 					var props []string
 					if len(fs) >= 5 && fs[4] != "" {
@@ -484,7 +493,7 @@ func main() {
 		}
 	}
 
-	nm := metaCases(rng, nMeta, corpusMeta, func(in wIn, build func(wo wOut, status int, fatal string) []vlib.Case) {
+	nm := metaCases(rng, nMeta, corpusMeta, unsupported, func(in wIn, build func(wo wOut, status int, fatal string) []vlib.Case) {
 		pend = append(pend, pending{kind: "meta", in: in, build: build})
 	})
 	_ = nm
